@@ -59,6 +59,13 @@ func shownY(name string) string {
 
 // expectedTrace runs the reference LR driver over the tables of the same generation.
 func expectedTrace(sc *specCtx, f *feedInfo) ([]traceEv, string) {
+	ev, verdict, _ := expectedTraceAt(sc, f)
+	return ev, verdict
+}
+
+// expectedTraceAt additionally returns, for the k-th request of a token, how many actions the run has performed by
+// then (the parser asks for the next token right after shifting the previous one).
+func expectedTraceAt(sc *specCtx, f *feedInfo) ([]traceEv, string, []int) {
 	a := sc.Auto
 	yid := map[string]int{}
 	for y, n := range a.SymName {
@@ -77,6 +84,7 @@ func expectedTrace(sc *specCtx, f *feedInfo) ([]traceEv, string) {
 		return yid[sc.Spec.Terms[t.Term].YName()]
 	}
 	var out []traceEv
+	atReq := []int{0}
 	stack := []int{0}
 	pos := 0
 	la := look(0)
@@ -85,13 +93,14 @@ func expectedTrace(sc *specCtx, f *feedInfo) ([]traceEv, string) {
 		act := a.GTable[s][la]
 		switch {
 		case act == a.ErrCode:
-			return out, "syntax"
+			return out, "syntax", atReq
 		case act == a.AccCode:
-			return out, "accept"
+			return out, "accept", atReq
 		case act > 0:
 			out = append(out, traceEv{Kind: "shift", Name: normName(shownY(a.SymName[la])), State: act})
 			stack = append(stack, act)
 			pos++
+			atReq = append(atReq, len(out))
 			la = look(pos)
 		default:
 			r := -act
@@ -108,7 +117,7 @@ func expectedTrace(sc *specCtx, f *feedInfo) ([]traceEv, string) {
 			stack = append(stack, g)
 		}
 	}
-	return out, "budget"
+	return out, "budget", atReq
 }
 
 func execC17(ctx *Ctx, in *Input) *Result {
@@ -172,7 +181,7 @@ func execC17(ctx *Ctx, in *Input) *Result {
 					}
 					return fail("trace-unreadable", "%v", err)
 				}
-				want, verdict := expectedTrace(sc, f)
+				want, verdict, atReq := expectedTraceAt(sc, f)
 				if verdict != pr.Outcome {
 					res.Count("skipped_tables_and_parser_disagree(C05/C08)", 1)
 					continue
@@ -211,6 +220,26 @@ func execC17(ctx *Ctx, in *Input) *Result {
 					if got[k] != want[k] {
 						return fail("trace-line-differs", "line %d of the trace is %+v, the automaton does %+v", k+1, got[k], want[k])
 					}
+				}
+				// the trace is printed as the parser goes: when the lexer is asked for token k, every action performed so far
+				// is on the output already (a lexer that prints, blocks or ends the program must find it there)
+				for k, at := range pr.TraceAt {
+					if k >= len(atReq) || at > len(pr.Trace) {
+						break
+					}
+					n := 0
+					for _, ln := range strings.Split(pr.Trace[:at], "\n") {
+						if strings.TrimSpace(ln) != "" {
+							n++
+						}
+					}
+					if at > 0 && pr.Trace[at-1] != '\n' {
+						n-- // an unfinished line
+					}
+					if n != atReq[k] {
+						return fail("trace-lags-behind-parser", "when the parser asked for token #%d it had performed %d actions, %d lines were on the output", k+1, atReq[k], n)
+					}
+					res.Count("trace_positions_checked_at_token_requests", 1)
 				}
 				res.Count("traces_validated", 1)
 				res.Count("trace_lines_validated", len(got))
